@@ -25,7 +25,7 @@
 (*                                                                                                *)
 (* The module is purely functional: the coin state is one record, every operation maps a state to *)
 (* the SET of states the wallet may end in (a singleton except where the code's choice is an      *)
-(* undocumented detail: which of several conflicting spenders remembered for a coin is linked).   *)
+(* undocumented detail: which of several conflicting spenders remembered for a coin are linked).  *)
 EXTENDS Integers, Sequences, FiniteSets, FiniteSetsExt, TLC
 
 CONSTANTS ExpiryDelta,   \* DEFAULT_TX_EXPIRY_DELTA (40)
@@ -50,10 +50,15 @@ Cands(st, c) == { s \in DOMAIN st.ttx : << s, c >> \in st.smap }
 Best(st, c) == LET mined == { s \in Cands(st, c) : st.ttx[s].mined # NULL }
                IN  IF mined # {} THEN { s \in mined : \A s2 \in mined : st.ttx[s].mined <= st.ttx[s2].mined }
                    ELSE Cands(st, c)
-\* the sets of links the wallet may add when the coins `cset` are (re-)written
+\* the sets of links the wallet may add when the coins `cset` are (re-)written.  Relational: of the spenders remembered
+\* for a coin it links at least one of the best (the pinned code links exactly one, which breaks the law
+\* KnownMinedSpenderWins when the spenders conflict - see notes/c01-coins-report.md; linking them all is as acceptable
+\* to this module).  Which ones it linked is read off the logged rows.
+Opts(st, c) == { L \in SUBSET Cands(st, c) : L \cap Best(st, c) # {} }
 LinkChoices(st, cset) ==
-    LET hit == { c \in cset : Best(st, c) # {} }
-    IN  { { << c, f[c] >> : c \in hit } : f \in { g \in [hit -> DOMAIN st.ttx] : \A c \in hit : g[c] \in Best(st, c) } }
+    LET hit == { c \in cset : Cands(st, c) # {} }
+        U   == UNION { Opts(st, c) : c \in hit }
+    IN  { UNION { { << c, s >> : s \in f[c] } : c \in hit } : f \in { g \in [hit -> U] : \A c \in hit : g[c] \in Opts(st, c) } }
 
 \* ReportUtxo: coin c = output of transaction t, value v, of account a, mined at h (NULL: height unknown
 \* to the reporter); tp: the wallet's chain tip (known).  The transaction row keeps its expiry; a reported
